@@ -21,13 +21,14 @@ type VCompactEvent struct {
 	TopIDs       []uint64
 	BotIDs       []uint64
 	NewIDs       []uint64 // in the order compactBuildTables returned them (sorted by Biggest)
+	NewCounts    []int    // number of entries in each new table (counted by iterating it)
 	DropPrefixes [][]byte
 	HasOverlap   bool
 	DiscardTs    uint64
 	SubSeen      bool // a sub-compaction reported (hasOverlap, discardTs)
 }
 
-var verifEv struct {
+var verifCompEv struct {
 	sync.Mutex
 	log []VCompactEvent
 	sub map[uint64]VCompactEvent // keyed by the id of the first input table
@@ -44,12 +45,12 @@ func verifCdKey(cd compactDef) uint64 {
 }
 
 func verifSubcompact(cd compactDef, hasOverlap bool, discardTs uint64) {
-	verifEv.Lock()
-	defer verifEv.Unlock()
-	if verifEv.sub == nil {
-		verifEv.sub = map[uint64]VCompactEvent{}
+	verifCompEv.Lock()
+	defer verifCompEv.Unlock()
+	if verifCompEv.sub == nil {
+		verifCompEv.sub = map[uint64]VCompactEvent{}
 	}
-	verifEv.sub[verifCdKey(cd)] = VCompactEvent{HasOverlap: hasOverlap, DiscardTs: discardTs, SubSeen: true}
+	verifCompEv.sub[verifCdKey(cd)] = VCompactEvent{HasOverlap: hasOverlap, DiscardTs: discardTs, SubSeen: true}
 }
 
 func verifCompactDone(l int, cd compactDef, newTables []*table.Table) {
@@ -62,30 +63,42 @@ func verifCompactDone(l int, cd compactDef, newTables []*table.Table) {
 	}
 	for _, t := range newTables {
 		ev.NewIDs = append(ev.NewIDs, t.ID())
+		ev.NewCounts = append(ev.NewCounts, verifCountEntries(t))
 	}
 	for _, p := range cd.dropPrefixes {
 		ev.DropPrefixes = append(ev.DropPrefixes, append([]byte{}, p...))
 	}
-	verifEv.Lock()
-	defer verifEv.Unlock()
-	if s, ok := verifEv.sub[verifCdKey(cd)]; ok {
+	verifCompEv.Lock()
+	defer verifCompEv.Unlock()
+	if s, ok := verifCompEv.sub[verifCdKey(cd)]; ok {
 		ev.HasOverlap, ev.DiscardTs, ev.SubSeen = s.HasOverlap, s.DiscardTs, true
-		delete(verifEv.sub, verifCdKey(cd))
+		delete(verifCompEv.sub, verifCdKey(cd))
 	}
-	verifEv.log = append(verifEv.log, ev)
+	verifCompEv.log = append(verifCompEv.log, ev)
+}
+
+func verifCountEntries(t *table.Table) int {
+	it := t.NewIterator(0)
+	defer it.Close()
+	n := 0
+	for it.Rewind(); it.Valid(); it.Next() {
+		n++
+	}
+	return n
 }
 
 func verifFlushDone(tbl *table.Table) {
-	verifEv.Lock()
-	defer verifEv.Unlock()
-	verifEv.log = append(verifEv.log, VCompactEvent{Kind: "flush", NewIDs: []uint64{tbl.ID()}})
+	n := verifCountEntries(tbl)
+	verifCompEv.Lock()
+	defer verifCompEv.Unlock()
+	verifCompEv.log = append(verifCompEv.log, VCompactEvent{Kind: "flush", NewIDs: []uint64{tbl.ID()}, NewCounts: []int{n}})
 }
 
 // VerifTakeEvents returns and clears the event log.
 func VerifTakeEvents() []VCompactEvent {
-	verifEv.Lock()
-	defer verifEv.Unlock()
-	out := verifEv.log
-	verifEv.log = nil
+	verifCompEv.Lock()
+	defer verifCompEv.Unlock()
+	out := verifCompEv.log
+	verifCompEv.log = nil
 	return out
 }
